@@ -1,4 +1,5 @@
 import GateryModel.C11.Erase
+import GateryModel.C11.Bypass
 /-!
 # C11 — property theorems
 
@@ -31,6 +32,21 @@ theorem decoration_conservative (net : List NetNode) (d w : Nat) (env : Env) :
 theorem same_value_same_run (pre post : List NetNode) (n n' : NetNode)
     (h : ∀ env, evalNetNode env (evalNet env pre) n = evalNetNode env (evalNet env pre) n') (env : Env) :
     evalNet env (pre ++ n :: post) = evalNet env (pre ++ n' :: post) := replace_exact pre post n n' h env
+
+/-- **All decorations at once**: short-circuiting every chain of pass-through nodes (any number, nested to any depth) in a netlist of
+    any size — every input port re-routed to the start of its chain, as `getNonSignalDriver` does — changes no value of any node, for
+    every stimulus, undefined bits included. -/
+theorem all_decorations_transparent (env : Env) (net : List NetNode) : evalNet env (bypass net) = evalNet env net := bypass_exact env net
+
+/-- The same for clocked netlists (register data / enable / reset-value ports short-circuited too) over stimuli of any length:
+    every node value at every cycle is unchanged. -/
+theorem all_decorations_transparent_clocked (c : SeqNet) (stim : List Cycle) (st : List BV4) :
+    seqRun (bypassSeq c) stim st = seqRun c stim st := bypassSeq_exact c stim st
+
+/-- `bypass` really short-circuits: a NOT behind a chain of two named copies is wired to the pin -/
+example : bypass [⟨.input 0, 1, []⟩, ⟨.signal, 1, [some 0]⟩, ⟨.signal, 1, [some 1]⟩, ⟨.node (.logic .NOT) .bool, 1, [some 2]⟩] =
+    [⟨.input 0, 1, []⟩, ⟨.signal, 1, [some 0]⟩, ⟨.signal, 1, [some 0]⟩, ⟨.node (.logic .NOT) .bool, 1, [some 0]⟩] := by
+  simp [bypass, bypassFrom, resolveRef, resolveSelf]
 
 /-- non-vacuity: in0 ; 1: signal(in0) ; 2: NOT(1)  — routing the NOT to in0 directly gives the same values, for an undefined input too -/
 example : evalNet [[B4.x]] ([⟨.input 0, 1, []⟩, ⟨.signal, 1, [some 0]⟩] ++ ⟨.node (.logic .NOT) .bool, 1, [some 1]⟩ :: []) =
